@@ -156,3 +156,95 @@ Lemma no_crash_master_lemma : forall sv i c,
 Proof.
   intros [s v] i c H. destruct (mdapply_mapply s v i c H) as [v' E]. rewrite E. discriminate.
 Qed.
+
+(* ---------- deriving [harmless] from the shape of ConsistencyCheck ---------- *)
+
+Lemma mapply_all_mdapply_all : forall cs s v sv' r,
+  mapply_all (s, v) cs = Some (sv', r) -> mdapply_all s cs = (fst sv', r).
+Proof.
+  induction cs as [|[i c] cs IH]; intros s v sv' r H; cbn [mapply_all mdapply_all] in *; [inv H; reflexivity|].
+  destruct (mapply (s, v) i c) as [[[s1 v1] res]|] eqn:E; [|discriminate].
+  destruct (mapply_all (s1, v1) cs) as [[sv2 rs]|] eqn:E2; [|discriminate]. inv H.
+  apply mapply_mdapply in E. cbn in E. rewrite E. rewrite (IH _ _ _ _ E2). reflexivity.
+Qed.
+
+
+(* master/durable/handler.go ConsistencyCheck: the leader proposes ChecksumRequestCmd, waits for its ChecksumRes
+   (Index = the raft index of that entry, Checksum = State.checksum of the state it was applied to) and then proposes
+   ChecksumVerifyCmd{res.Index, res.Checksum}.  Raft indices of log entries are distinct. *)
+Definition cc_shaped (cs : list (N * mcmd)) : Prop :=
+  NoDup (map fst cs) /\
+  forall q i ix ck, nth_error cs q = Some (i, MCkVerify ix ck) ->
+    ix <> mv_ckidx mv_init /\
+    exists p, (p < q)%nat /\ nth_error cs p = Some (ix, MCkReq) /\
+              ck = m_checksum (fst (mdapply_all m_init (firstn p cs))).
+
+(* the volatile pair of a replica that applied the first k commands *)
+Definition vol_from (cs : list (N * mcmd)) (k : nat) (v : mvol) : Prop :=
+  v = mv_init \/ exists p, (p < k)%nat /\ nth_error cs p = Some (mv_ckidx v, MCkReq) /\
+                           mv_ck v = m_checksum (fst (mdapply_all m_init (firstn p cs))).
+
+Lemma firstn_S_nth_m : forall {A} (l : list A) n x, nth_error l n = Some x -> firstn (S n) l = firstn n l ++ [x].
+Proof.
+  induction l as [|y l IH]; intros n x H; destruct n; cbn in *; try discriminate.
+  - inv H. reflexivity.
+  - f_equal. apply IH. exact H.
+Qed.
+
+Lemma prefix_vol_from : forall cs k sk rk, (k <= length cs)%nat ->
+  mapply_all (m_init, mv_init) (firstn k cs) = Some (sk, rk) -> vol_from cs k (snd sk).
+Proof.
+  intros cs k. induction k as [|k IH]; intros sk rk Hk H.
+  - cbn in H. inv H. now left.
+  - destruct (nth_error cs k) as [[i c]|] eqn:En; [|apply nth_error_None in En; lia].
+    rewrite (firstn_S_nth_m _ _ _ En) in H. apply mapply_all_app in H.
+    destruct H as (sv1 & r1 & r2 & A1 & A2 & _). cbn [mapply_all] in A2.
+    destruct (mapply sv1 i c) as [[sv2 res]|] eqn:E; [|discriminate]. inv A2.
+    assert (Hk' : (k <= length cs)%nat) by lia. specialize (IH _ _ Hk' A1).
+    destruct sv1 as [s1 v1]. destruct sk as [s2 v2]. cbn [snd] in *.
+    destruct (mapply_vol _ _ _ _ _ _ _ E) as [[_ ->]|[-> ->]].
+    + destruct IH as [->|(p & Hp & Hn & Hc)]; [now left|right; exists p; repeat split; auto; lia].
+    + right. exists k. cbn [mv_ckidx mv_ck]. split; [lia|]. split; [exact En|].
+      pose proof (mapply_all_mdapply_all _ _ _ _ _ A1) as D. cbn [fst] in D. rewrite D. reflexivity.
+Qed.
+
+Lemma NoDup_fst_nth : forall {A} (cs : list (N * A)) p q i a b, NoDup (map fst cs) ->
+  nth_error cs p = Some (i, a) -> nth_error cs q = Some (i, b) -> p = q.
+Proof.
+  intros A cs p q i a b Hnd Hp Hq.
+  assert (Hp' : nth_error (map fst cs) p = Some i) by (rewrite nth_error_map, Hp; reflexivity).
+  assert (Hq' : nth_error (map fst cs) q = Some i) by (rewrite nth_error_map, Hq; reflexivity).
+  eapply NoDup_nth_error; eauto. apply nth_error_Some. congruence. congruence.
+Qed.
+
+Lemma cc_shaped_harmless : forall cs k j sk rk, cc_shaped cs -> (k <= length cs)%nat ->
+  mapply_all (m_init, mv_init) (firstn k cs) = Some (sk, rk) -> harmless (snd sk) (skipn j cs).
+Proof.
+  intros cs k j sk rk [Hnd Hcc] Hk H i ix ck Hin Hx.
+  assert (Hin' : In (i, MCkVerify ix ck) cs).
+  { rewrite <- (firstn_skipn j cs). apply in_or_app. now right. }
+  apply In_nth_error in Hin'. destruct Hin' as [q Hq].
+  destruct (Hcc _ _ _ _ Hq) as (Hni & p & Hpq & Hp & Hck).
+  destruct (prefix_vol_from _ _ _ _ Hk H) as [Hv|(p' & Hp' & Hn' & Hc')].
+  - rewrite Hv in Hx. exfalso. apply Hni. symmetry. exact Hx.
+  - rewrite Hx in Hn'. assert (p' = p) by (eapply NoDup_fst_nth; eauto). subst p'. rewrite Hc', Hck. reflexivity.
+Qed.
+
+(* snapshot agreement for the repaired restore, for every history with ConsistencyCheck-shaped checksum rounds *)
+Lemma replicas_agree_master_cc_lemma :
+  forall (cs : list (N * mcmd)) (k j : nat) sk rk sj rj sfull rfull,
+    (k <= j)%nat -> (j <= length cs)%nat -> cc_shaped cs ->
+    mapply_all (m_init, mv_init) (firstn k cs) = Some (sk, rk) ->
+    mapply_all (m_init, mv_init) (firstn j cs) = Some (sj, rj) ->
+    mapply_all (m_init, mv_init) cs = Some (sfull, rfull) ->
+    exists s' r',
+      mapply_all (restore_fresh sk (msnapshot sj)) (skipn j cs) = Some (s', r') /\
+      fst s' = fst sfull /\ r' = skipn j rfull.
+Proof.
+  intros cs k j sk rk sj rj sfull rfull Hkj Hj Hcc Hk Hjr Hfull.
+  eapply replicas_agree_master_lemma; eauto. apply (cc_shaped_harmless cs k j sk rk Hcc); [lia|exact Hk].
+Qed.
+
+(* a ConsistencyCheck-shaped history never kills the straight master replica either *)
+Definition f7_cc_example : list (N * mcmd) :=
+  [(1, MRegCurator); (2, MCkReq); (3, MSetRO true); (4, MCkVerify 2 (m_checksum (mkM [0] 2 1 false))); (5, MSetRO false); (6, MNewPart 1)].
